@@ -336,53 +336,34 @@ example : parseCellValue Arith.id (cellPieces (formatAtoms (.uint16 65535))) btU
 
 /-! ## the text layer: the `copy` pass -/
 
-/-- the full statement for the `copy` pass of FITToCSVConv (header written, then every line of the temporary buffer
-copied, padded with the missing commas unless trimming): EVERY line the converter wrote for a message reaches the CSV.
-FALSE on the pinned tree — KF-C19-7, `C19_copy_long_line_lost`. -/
-def C19_copy_all_lines_full : Prop :=
-  ∀ (o : Opts) (k : Nat) (ls : List Txt), (∀ x ∈ ls, commasOutside false x ≤ k) →
-    copyLines o k ls = some (if o.trim then ls else ls.map (padLine k))
-
-/-- **Every line reaches the CSV, padded to the header's comma count** — proved for lines SHORTER than 65536 bytes
-(`scanLimit` = `bufio.MaxScanTokenSize`), or with the trim option (`io.Copy`): the hypothesis excludes exactly the class of
-KF-C19-7. -/
-theorem C19_copy_all_lines_partial (o : Opts) (k : Nat) (ls : List Txt) (hc : ∀ x ∈ ls, commasOutside false x ≤ k)
-    (hshort : o.trim = true ∨ ∀ x ∈ ls, x.length < scanLimit) :
+/-- **Every line the converter wrote for a message reaches the CSV, padded to the header's comma count** (the lines as
+they are with the trim option) — lines of ANY length: KF-C19-7, fixed in /repo (`copy` read the temporary buffer through a
+`bufio.Scanner` with its default 64 KiB buffer and did not look at `scanner.Err()`: from the first line of 65536 bytes
+on, every line was missing from the CSV without an error; a message is one line, and e.g. 65 byte-array fields of 255
+elements make such a line). -/
+theorem C19_copy_all_lines (o : Opts) (k : Nat) (ls : List Txt) (hc : ∀ x ∈ ls, commasOutside false x ≤ k) :
     copyLines o k ls = some (if o.trim then ls else ls.map (padLine k)) := by
   cases ht : o.trim
-  · rcases hshort with h | h
-    · rw [ht] at h; cases h
-    · simp only [Bool.false_eq_true, ↓reduceIte]
-      exact copyLines_short o k ht ls (fun x hx => ⟨h x hx, hc x hx⟩)
+  · simp only [Bool.false_eq_true, ↓reduceIte]
+    exact copyLines_pad o k ht ls hc
   · simp only [↓reduceIte]
     exact copyLines_trim o k ht ls
 
-/-- **KF-C19-7 (open): a line of 65536 bytes or more, and every line after it, is missing from the CSV** without the
-trim option, and no error is reported: `copy` reads the temporary buffer through a `bufio.Scanner` with its default
-buffer, `Scan` returns false at such a line (`ErrTooLong`), the loop ends and `copy` returns nil. A message is one line:
-255 fields of up to 255 bytes, a byte printed as up to four characters — 65 byte-array fields (or developer fields) of
-255 elements are enough. The messages of those lines do not come back: the full statement fails. -/
-theorem C19_copy_long_line_lost (o : Opts) (k : Nat) (ht : o.trim = false) (pre : List Txt) (l : Txt) (post : List Txt)
-    (hpre : ∀ x ∈ pre, x.length < scanLimit ∧ commasOutside false x ≤ k) (hl : l.length ≥ scanLimit) :
-    copyLines o k (pre ++ l :: post) = some (pre.map (padLine k)) :=
-  copyLines_long o k ht l post hl pre hpre
-
-/-- the witness class violates the full statement: one line of 65536 commas-free bytes -/
-theorem C19_copy_all_lines_full_false : ¬ C19_copy_all_lines_full := by
-  intro h
-  have h1 := h {} 0 [List.replicate scanLimit 97] (by
+/-- the former witness class of KF-C19-7: a line of 65536 bytes between two others — all three are copied -/
+theorem C19_copy_long_line_fixed (a b : Txt) (ha : commasOutside false a ≤ 2) (hb : commasOutside false b ≤ 2) :
+    copyLines {} 2 [a, List.replicate scanLimit 97, b] = some [padLine 2 a, padLine 2 (List.replicate scanLimit 97), padLine 2 b] := by
+  have hz : ∀ n, commasOutside false (List.replicate n 97) = 0 := by
+    intro n
+    induction n with
+    | zero => rfl
+    | succ n ih => simp [List.replicate_succ, commasOutside, ih]
+  have := C19_copy_all_lines {} 2 [a, List.replicate scanLimit 97, b] (by
     intro x hx
-    simp only [List.mem_singleton] at hx
-    subst hx
-    have : ∀ n, commasOutside false (List.replicate n 97) = 0 := by
-      intro n
-      induction n with
-      | zero => rfl
-      | succ n ih => simp [List.replicate_succ, commasOutside, ih]
-    rw [this])
-  have h2 := copyLines_long {} 0 rfl (List.replicate scanLimit 97) [] (by simp) [] (by intro x hx; cases hx)
-  simp only [List.nil_append] at h2
-  rw [h2] at h1
-  simp at h1
+    simp only [List.mem_cons, List.not_mem_nil, or_false] at hx
+    rcases hx with rfl | rfl | rfl
+    · exact ha
+    · rw [hz]; omega
+    · exact hb)
+  simpa using this
 
 end Fit.C19
